@@ -188,7 +188,7 @@ ENCODED = [
 ]
 BOUNDS = {
     "quick": ["views: any invariant-satisfying (start, stop) on a parent of any length, step C in {-3..3}\\{0}, any offset >= 0", "indel maps: <= 2 gap runs, unbounded coordinates; feature maps: <= 3 spans (spans and lost spans)",
-              "alignment rows: <= 1 gap run (thorough 2), both strands"],
+              "alignment rows: <= 1 gap run (thorough 2), both strands", "trees: to_rich_dict -> deserialise_tree for every shape with 3..4 tips (thorough 5) and symbolic branch lengths (names fixed)"],
     "thorough": ["as quick with C in {-6..6}\\{0}; rows with <= 2 gap runs"],
 }
 ASSUMPTIONS = c01.ASSUMPTIONS[:2] + [
@@ -197,7 +197,7 @@ ASSUMPTIONS = c01.ASSUMPTIONS[:2] + [
     "numpy object arrays stand in for integer arrays in maps",
     "cogent3.core.sequence.hasattr rebound to an equivalent pure-Python hasattr (CrossHair's patched hasattr evaluates properties with tracing disabled)",
 ]
-OUTSIDE = ["the other registered types: collections / alignments as a whole, trees' JSON text, tables, dict-arrays, alphabets, moltypes, annotation dbs, substitution models, likelihood functions, app results, NotCompleted; pickling (numpy / JSON / SQLite / pickle at C level: no symbolic content reaches an assertion)"]
+OUTSIDE = ["the other registered types: collections / alignments as a whole, trees' JSON *text* (float formatting), tables, dict-arrays, alphabets, moltypes, annotation dbs, substitution models, likelihood functions, app results, NotCompleted; pickling (numpy / JSON / SQLite / pickle at C level: no symbolic content reaches an assertion)"]
 TRUSTED = ["C01 slice model, C08 gap-run reader"]
 
 
@@ -215,6 +215,10 @@ def obligations(tier):
         obs.append(Ob(f"indelmap/G{G}", __name__, "mk_indelmap", {"G": G}, timeout=900, group="maps"))
     for kinds in ("S", "SS", "SLS", "LSL", "L"):
         obs.append(Ob(f"featuremap/{kinds}", __name__, "mk_featuremap", {"kinds": kinds}, timeout=900, group="maps"))
+    from props import c09
+
+    for sh in c09.all_shapes(5 if T else 4) + c09.EXTRA[:1]:
+        obs.append(Ob(f"tree_rich_dict/{sh['id']}", "props.c09", "mk", {"shape_id": sh["id"], "op": "rich_dict"}, timeout=600, group="tree"))
     for C in (1, -1):
         for G in ((0, 1, 2) if T else (0, 1)):
             obs.append(Ob(f"aligned/G{G}/C{C}", __name__, "mk_aligned", {"G": G, "C": C}, timeout=1200, group="rows"))
